@@ -136,7 +136,7 @@ func (g *c15Gen) action() bool {
 	var stmts []*ast.Node
 	label := ""
 	res := func(e *ast.Node) { stmts = append(stmts, ast.Print(ast.Str("R"), e)) }
-	switch k := g.n(0, 24, "op"); {
+	switch k := g.n(0, 25, "op"); {
 	case k <= 3:
 		stmts = append(stmts, ast.ExprS(ast.Method(a.expr(), "push", g.elem())))
 		label = "push"
@@ -189,6 +189,17 @@ func (g *c15Gen) action() bool {
 		}
 		label = "push-missing-read"
 		g.last[a.name] = "push"
+	case k == 24:
+		// a store two or more places past the end pads with nulls: each padded place is an
+		// element of its own
+		gap := g.n(2, 4, "padgap")
+		stmts = append(stmts, ast.ExprS(ast.Set(ast.Idx(a.expr(), ast.Num(fmt.Sprint(n+gap))), g.scalarElem())),
+			ast.ExprS(ast.Set(ast.Idx(a.expr(), ast.Num(fmt.Sprint(n+g.n(0, gap-1, "padwhich")))), g.scalarElem())))
+		if g.b("padpush") {
+			stmts = append(stmts, ast.ExprS(ast.Post("++", ast.Idx(a.expr(), ast.Num(fmt.Sprint(n))))))
+		}
+		label = "pad-then-store"
+		g.last[a.name] = ""
 	case k == 23:
 		// sort returns a copy: stores into the copy and into the original stay apart
 		stmts = append(stmts, ast.ExprS(ast.Set(ast.Id("sv"), ast.Method(a.expr(), "sort"))))
